@@ -55,6 +55,31 @@ CHECKS = {
         "The model's generator is resolve+compile (Model/Gen.v, Model/Rx.v); its equality with the Go generator is checked by bytecode comparison on every case.",
    technique="Coq proof (relocation lemma by structural induction; transparency by inversion) + metamorphic/differential checks on the implementation",
    ref="DESIGN.md 7 C13"),
+ "C03": dict(
+   text="Theorems (closed), for ARBITRARY bytecode (not only generated code: named loops, regex literals, replace commands included), every text and window: C03_step_invariant - "
+        "every core the VM holds, running or checkpointed, keeps position inside the text, matched = text[start..pos), line/column in step; C03_matches_located - the result list is "
+        "a chain: increasing, non-overlapping, each match with Start<End<=|text|, Value=text[Start:End], Line = 1+newlines before the offset, Column = 1-based byte column, at both ends; "
+        "C03_numbers; C03_replace_same_matches. Tie: all fields of every match compared with the model and with closed forms recomputed in Python from the text alone, on multi-line texts.",
+   note="Column claim: ASCII texts (the implementation counts runes per consumed chunk, the model bytes). The clause 'every string variable is a substring of the match value' is checked on the "
+        "implementation (Python oracle) and by correspondence but not yet stated as a theorem (partial).",
+   technique="Coq proof (step invariant + induction over the scan, arbitrary programs) + independent closed-form oracle on the implementation",
+   ref="DESIGN.md 7 C03"),
+ "C05": dict(
+   text="Theorems (closed): C05_replacement_concat - the replacement of a match is the concatenation, in order, of item_text of its items (string: itself; name: the text of the capture or "
+        "built-in of THIS match, nothing if unbound; transform: its result with this match as `match`), everything else unchanged; C05_replace_find_same. Tie: replacements recomputed in "
+        "Python from the implementation's own match fields for non-transform items, model comparison for transforms, replace vs find with the same body.",
+   note="`totalMatches` is the number of matches of the command's window (by design). A replace with no contributing item has no replacement value (None ~ '').",
+   technique="Coq proof (fold-to-concat induction over the replacer program) + differential/metamorphic checks",
+   ref="DESIGN.md 7 C05"),
+ "C06": dict(
+   text="Theorems (closed): C06_splice_correct - for every ordered, located match list the copy loop of searchReplace over a growable writer yields gap0++r0++gap1++...++tail (any lengths, "
+        "zero matches); C06_replace_output - the model's match lists always satisfy that hypothesis (C03); C06_modes_effect - over the file-system model NOTHING and find commands change "
+        "nothing, NEW changes only <file>.vored, OVERWRITE only the file, to exactly the splice. Tie: real scratch directories, whole-directory snapshots before/after RunFiles x 3 modes x "
+        "{find, replace} x contents x stale .vored x several files.",
+   note="The OS file API (O_TRUNC open, positional writes), os.ReadFile and the buffered reader are modelled, not verified (reader: C07); the FS part of the theorem is near-definitional and its "
+        "weight lies in the directory-snapshot correspondence. Multi-command OVERWRITE chains are checked one command at a time.",
+   technique="Coq proof (loop invariant over the match list; finite-map file system) + directory snapshot differential",
+   ref="DESIGN.md 7 C06"),
  "C04": dict(
    text="Theorems C04_windows_any_engine / C04_find_matches / C04_replace (Coq, closed): for ANY attempt function, text and window sizes, "
         "top/take n, skip s, skip s take t and last n (n>=1) of the model's findMatches are firstn/skipn slices of the `find all` sequence, "
